@@ -754,3 +754,18 @@ Proof.
   split; [cbn; unfold edge_end, sec; lia|]. split; [cbn; unfold edge_end, sec; lia|].
   vm_compute. repeat split.
 Qed.
+
+(** Sessions keep whole seconds: [checkSession] and [loadSessions] read
+    [uint32(time.Now().UTC().Unix())], the instant rounded DOWN to the second,
+    and compare it with the stored expiry (whole seconds).  For an instant of
+    [ns] nanoseconds since the epoch and an expiry of [e] seconds, the test on
+    the truncated clock is the test on the instant itself: a statement about
+    sessions in seconds (Model/Session.v, [C12_session_window],
+    [C12_session_window_complete]) is exact to the nanosecond. *)
+Theorem unix_truncation_exact (ns e : Z) : ns / second_ns < e <-> ns < e * second_ns.
+Proof.
+  unfold second_ns.
+  pose proof (Z.div_mod ns 1000000000 ltac:(lia)) as D.
+  pose proof (Z.mod_pos_bound ns 1000000000 ltac:(lia)) as M.
+  lia.
+Qed.
